@@ -27,7 +27,7 @@ type C implements J { a: Int!  pc: Int }
 union U = A | B | C
 enum E { X Y }
 type Mutation { inc: Int!  m: A  mn: Int  minn: Int! }
-type Subscription { ev: A  evn: Int  evnn: Int! }
+type Subscription { ev: A  evn: Int  evnn: Int!  evonn: A! }
 "#;
 
 /// Per-request world + observation log.
@@ -641,6 +641,14 @@ impl Subscription {
             Some(Ans::Err) => Err(boom()),
             Some(Ans::Null) => Ok(None),
             _ => Ok(Some(A)),
+        })
+    }
+    /// a non-null object payload: an event in which a non-null child fails nulls the whole data
+    async fn evonn(&self, ctx: &Context<'_>) -> impl Stream<Item = Result<A>> {
+        let wd = ctx.data_unchecked::<W>().clone();
+        event_stream(wd, "evonn", |wd| match wd.table.get("evonn") {
+            Some(Ans::Err) => Err(boom()),
+            _ => Ok(A),
         })
     }
     async fn evn(&self, ctx: &Context<'_>) -> impl Stream<Item = Result<Option<i32>>> {
